@@ -24,8 +24,15 @@
    - outages are toggled between operations, so during one operation a node is either
      up or down. *)
 From Coq Require Import List ZArith Bool NArith.
+From GZgen Require Import C06Consts.
 Import ListNotations.
 Open Scope Z_scope.
+
+(* The constants of the Go sources (expiryDeviation, defaultExpiry, defaultNotFoundExpiry,
+   cacheSafeGapBetweenIndexAndPrimary, the cleaner's first delay / retry table / wheel
+   interval) are NOT written here: they come from coq/gen/C06Consts.v, regenerated from the
+   checked tree on every run (harness/cmd/c06consts).  GenProofs.v states what the proofs
+   need of them and what the property text fixes (5 %). *)
 
 (* ------------------------------------------------------------------ keys, values *)
 Inductive key := KP (p : Z) | KU (u : Z).
@@ -108,11 +115,13 @@ Record config := mkCfg
     cnodes : list (key * Z) }.   (* node of a key (absent: node 0) *)
 
 Definition sec : Z := 1000000000.
-Definition default_expiry : Z := 604800 * sec.      (* cacheopt.go: 7 days *)
-Definition default_nf : Z := 60 * sec.              (* cacheopt.go: 1 minute *)
+Definition default_expiry : Z := gen_default_expiry.      (* cacheopt.go defaultExpiry, ns *)
+Definition default_nf : Z := gen_default_nf.              (* cacheopt.go defaultNotFoundExpiry, ns *)
 Definition expiry_of (c : config) := if cexpiry c <=? 0 then default_expiry else cexpiry c.
 Definition nf_of (c : config) := if cnf c <=? 0 then default_nf else cnf c.
-Definition safe_gap : Z := 5.                       (* cacheSafeGapBetweenIndexAndPrimary, s *)
+(* cacheSafeGapBetweenIndexAndPrimary in seconds (a whole number: GenProofs.gap_whole_seconds;
+   ceil((expire + gap).Seconds()) = ceil(expire.Seconds()) + gap needs that) *)
+Definition safe_gap : Z := gen_safe_gap / sec.
 
 Fixpoint node_lookup (k : key) (l : list (key * Z)) : Z :=
   match l with
@@ -121,11 +130,13 @@ Fixpoint node_lookup (k : key) (l : list (key * Z)) : Z :=
   end.
 Definition node_of (c : config) (k : key) : Z := node_lookup k (cnodes c).
 
-(* expiryDeviation = 0.05: AroundDuration(b) = trunc((1.05 - 0.1*r) * b), r in [0,1), hence in
-   [floor(0.95 b), floor(1.05 b)] ns; the TTL handed to Redis is ceil of that in seconds *)
+(* expiryDeviation = dev: AroundDuration(b) = trunc((1 + dev - 2*dev*r) * b), r in [0,1), hence in
+   [floor((1-dev) b), floor((1+dev) b)] ns; the TTL handed to Redis is ceil of that in seconds *)
 Definition cdiv (a b : Z) : Z := (a + b - 1) / b.
-Definition ttl_lo (b : Z) : Z := cdiv (19 * b / 20) sec.
-Definition ttl_hi (b : Z) : Z := cdiv (21 * b / 20) sec.
+Definition dev_num : Z := gen_dev_num.
+Definition dev_den : Z := gen_dev_den.
+Definition ttl_lo (b : Z) : Z := cdiv ((dev_den - dev_num) * b / dev_den) sec.
+Definition ttl_hi (b : Z) : Z := cdiv ((dev_den + dev_num) * b / dev_den) sec.
 Definition ttl_ok (b t : Z) : bool := (ttl_lo b <=? t) && (t <=? ttl_hi b).
 
 (* redis.SetexCtx / SetnxExCtx hand go-redis `seconds * time.Second`; a duration <= 0
@@ -134,7 +145,11 @@ Definition exp_of (now t : Z) : option Z := if t <=? 0 then None else Some (now 
 
 (* ------------------------------------------------------------------ state *)
 Record task := mkTask
-  { tkeys : list key; tnode : Z; trem : Z (* ticks until it fires *); tdelay : Z (* s *) }.
+  { tkeys : list key; tnode : Z; trem : Z (* ticks until it fires *); tdelay : Z (* ns *) }.
+
+(* a timer of delay d fires after max 1 (d / interval) ticks of the cleaner's wheel (C12) *)
+Definition ticks_of (d : Z) : Z := Z.max 1 (d / gen_wheel_interval).
+Definition first_task (ks : list key) (n : Z) : task := mkTask ks n (ticks_of gen_first_delay) gen_first_delay.
 
 Record state := mkState
   { db : table;
@@ -169,7 +184,10 @@ Inductive op :=
 | OAdv (ms : Z)                                (* time passes *)
 | ODbFault (b : bool)
 | OCFault (n : Z) (b : bool)
-| OClean (n : N).                              (* RetryClean: n ticks of the cleaner *)
+| OClean (n : N)                               (* RetryClean: n ticks of the cleaner *)
+| OTakeMid (p t n : Z)                         (* Take during which node n goes down inside the
+                                                  database query (after the GET, before the SET) *)
+| OQriMid (u t n : Z).                         (* QueryRowIndex, likewise (index or primary query) *)
 
 Inductive ret :=
 | ROk
@@ -192,7 +210,7 @@ Definition del_on_node (c : config) (n : Z) (keys : list key) (s : state) : stat
   | _ =>
     if node_down s n then
       mkState (db s) (dbFault s) (cache s) (cfault s)
-              (pending s ++ [mkTask ks n 1 1]) (lost s) (clock s)
+              (pending s ++ [first_task ks n]) (lost s) (clock s)
     else
       mkState (db s) (dbFault s) (remove_all ks (cache s)) (cfault s) (pending s)
               (filter (fun k => negb (mem_key k ks)) (lost s)) (clock s)
@@ -205,6 +223,28 @@ Definition del_keys (c : config) (keys : list key) (s : state) : state :=
   fold_left (fun s n => del_on_node c n keys s) (nodes_of c keys) s.
 
 (* ------------------------------------------------------------------ doTake on a primary key *)
+(* the miss branch of doTake: query, then SETEX / SETNX.  A failing write is only logged:
+   the loaded value is still returned (the node can only be down here when it failed
+   during the query: OTakeMid) *)
+Definition load_primary (c : config) (s : state) (p t : Z) : state * obs :=
+  let k := KP p in
+  if dbFault s then (s, mkObs RDbErr 0 1)
+  else
+    match db_get p (db s) with
+    | Some (u, v) =>
+      if key_down c s k then (s, mkObs (RRow p u v) 0 1)
+      else if ttl_ok (expiry_of c) t
+      then (set_cache s (put k (mkEntry (CRow u v) (exp_of (clock s) t)) (cache s)),
+            mkObs (RRow p u v) 0 1)
+      else (s, mkObs RBadOracle 0 1)
+    | None =>
+      (* SETNX: the key is absent here (lazy expiry) *)
+      if key_down c s k then (s, mkObs RNf 0 1)
+      else if ttl_ok (nf_of c) t
+      then (set_cache s (put k (mkEntry CHole (exp_of (clock s) t)) (cache s)), mkObs RNf 0 1)
+      else (s, mkObs RBadOracle 0 1)
+    end.
+
 Definition take_primary (c : config) (s : state) (p t : Z) : state * obs :=
   let k := KP p in
   if key_down c s k then (s, mkObs RCErr 0 0)
@@ -213,24 +253,45 @@ Definition take_primary (c : config) (s : state) (p t : Z) : state * obs :=
     | Some (mkEntry (CRow u v) _) => (s, mkObs (RRow p u v) 0 0)
     | Some (mkEntry CHole _) => (s, mkObs RNf 0 0)
     | Some (mkEntry (CPk _) _) => (s, mkObs RIllTyped 0 0)
-    | None =>
-      if dbFault s then (s, mkObs RDbErr 0 1)
-      else
-        match db_get p (db s) with
-        | Some (u, v) =>
-          if ttl_ok (expiry_of c) t
-          then (set_cache s (put k (mkEntry (CRow u v) (exp_of (clock s) t)) (cache s)),
-                mkObs (RRow p u v) 0 1)
-          else (s, mkObs RBadOracle 0 1)
-        | None =>
-          (* SETNX: the key is absent here (lazy expiry) *)
-          if ttl_ok (nf_of c) t
-          then (set_cache s (put k (mkEntry CHole (exp_of (clock s) t)) (cache s)), mkObs RNf 0 1)
-          else (s, mkObs RBadOracle 0 1)
-        end
+    | None => load_primary c s p t
     end.
 
-(* QueryRowIndexCtx *)
+(* an outage injected from inside the database query callback *)
+Definition fail_node (s : state) (n : Z) : state :=
+  mkState (db s) (dbFault s) (cache s) (n :: cfault s) (pending s) (lost s) (clock s).
+
+Definition take_mid (c : config) (s : state) (p t n : Z) : state * obs :=
+  if key_down c s (KP p) then (s, mkObs RCErr 0 0)
+  else
+    match lookup (clock s) (cache s) (KP p) with
+    | None => load_primary c (fail_node s n) p t
+    | Some _ => take_primary c s p t
+    end.
+
+(* QueryRowIndexCtx: the index-miss branch.  SetWithExpire(primary) inside the query function
+   returns its error to doTake (reported, index not cached); a failing SET / SETNX of the
+   index entry is only logged. *)
+Definition load_index (c : config) (s : state) (u t : Z) : state * obs :=
+  let ik := KU u in
+  if dbFault s then (s, mkObs RDbErr 1 0)
+  else
+    match db_by_u u (db s) with
+    | None =>
+      if key_down c s ik then (s, mkObs RNf 1 0)
+      else if ttl_ok (nf_of c) t
+      then (set_cache s (put ik (mkEntry CHole (exp_of (clock s) t)) (cache s)), mkObs RNf 1 0)
+      else (s, mkObs RBadOracle 1 0)
+    | Some (p, (u', v)) =>
+      (* SetWithExpire(primary, row, expire + gap) inside the query function *)
+      if key_down c s (KP p) then (s, mkObs RCErr 1 0)
+      else if ttl_ok (expiry_of c) t
+      then
+        let d1 := put (KP p) (mkEntry (CRow u' v) (exp_of (clock s) (t + safe_gap))) (cache s) in
+        if key_down c s ik then (set_cache s d1, mkObs (RRow p u' v) 1 0)
+        else (set_cache s (put ik (mkEntry (CPk p) (exp_of (clock s) t)) d1), mkObs (RRow p u' v) 1 0)
+      else (s, mkObs RBadOracle 1 0)
+    end.
+
 Definition query_index (c : config) (s : state) (u t : Z) : state * obs :=
   let ik := KU u in
   if key_down c s ik then (s, mkObs RCErr 0 0)
@@ -239,23 +300,18 @@ Definition query_index (c : config) (s : state) (u t : Z) : state * obs :=
     | Some (mkEntry CHole _) => (s, mkObs RNf 0 0)
     | Some (mkEntry (CPk p) _) => take_primary c s p t
     | Some (mkEntry (CRow _ _) _) => (s, mkObs RIllTyped 0 0)
-    | None =>
-      if dbFault s then (s, mkObs RDbErr 1 0)
-      else
-        match db_by_u u (db s) with
-        | None =>
-          if ttl_ok (nf_of c) t
-          then (set_cache s (put ik (mkEntry CHole (exp_of (clock s) t)) (cache s)), mkObs RNf 1 0)
-          else (s, mkObs RBadOracle 1 0)
-        | Some (p, (u', v)) =>
-          (* SetWithExpire(primary, row, expire + 5 s) inside the query function *)
-          if key_down c s (KP p) then (s, mkObs RCErr 1 0)
-          else if ttl_ok (expiry_of c) t
-          then
-            let d1 := put (KP p) (mkEntry (CRow u' v) (exp_of (clock s) (t + safe_gap))) (cache s) in
-            (set_cache s (put ik (mkEntry (CPk p) (exp_of (clock s) t)) d1), mkObs (RRow p u' v) 1 0)
-          else (s, mkObs RBadOracle 1 0)
-        end
+    | None => load_index c s u t
+    end.
+
+Definition query_index_mid (c : config) (s : state) (u t n : Z) : state * obs :=
+  let ik := KU u in
+  if key_down c s ik then (s, mkObs RCErr 0 0)
+  else
+    match lookup (clock s) (cache s) ik with
+    | Some (mkEntry CHole _) => (s, mkObs RNf 0 0)
+    | Some (mkEntry (CPk p) _) => take_mid c s p t n
+    | Some (mkEntry (CRow _ _) _) => (s, mkObs RIllTyped 0 0)
+    | None => load_index c (fail_node s n) u t
     end.
 
 Definition get_primary (c : config) (s : state) (p : Z) : state * obs :=
@@ -297,9 +353,13 @@ Definition set_primary (c : config) (s : state) (p u v : Z) (e : option Z) : sta
   else (set_cache s (put (KP p) (mkEntry (CRow u v) e) (cache s)), mkObs ROk 0 0).
 
 (* ------------------------------------------------------------------ cleaner *)
-Definition next_delay (d : Z) : option Z :=
-  if d =? 1 then Some 5 else if d =? 5 then Some 60 else if d =? 60 then Some 300
-  else if d =? 300 then Some 3600 else None.
+Fixpoint assoc_z (d : Z) (l : list (Z * Z)) : option Z :=
+  match l with
+  | [] => None
+  | (a, b) :: l' => if d =? a then Some b else assoc_z d l'
+  end.
+(* cleaner.go nextDelay (ns): None = give up *)
+Definition next_delay (d : Z) : option Z := assoc_z d gen_retry.
 
 (* one task at one tick *)
 Definition tick_task (s : state) (tk : task) : state :=
@@ -310,7 +370,7 @@ Definition tick_task (s : state) (tk : task) : state :=
     match next_delay (tdelay tk) with
     | Some d' =>
       mkState (db s) (dbFault s) (cache s) (cfault s)
-              (pending s ++ [mkTask (tkeys tk) (tnode tk) d' d']) (lost s) (clock s)
+              (pending s ++ [mkTask (tkeys tk) (tnode tk) (ticks_of d') d']) (lost s) (clock s)
     | None =>
       mkState (db s) (dbFault s) (cache s) (cfault s) (pending s) (lost s ++ tkeys tk) (clock s)
     end
@@ -345,6 +405,8 @@ Definition step (c : config) (s : state) (o : op) : state * obs :=
              (if b then n :: cfault s else filter (fun m => negb (m =? n)) (cfault s))
              (pending s) (lost s) (clock s), mkObs ROk 0 0)
   | OClean n => (N.iter n tick s, mkObs ROk 0 0)
+  | OTakeMid p t n => take_mid c s p t n
+  | OQriMid u t n => query_index_mid c s u t n
   end.
 
 Fixpoint run (c : config) (s : state) (ops : list op) : list obs :=
